@@ -36,6 +36,7 @@ def main():
         res.violation("harness does not build against the current /repo tree", dict(output=hout[-3000:]),
                       dict(oracle="build"), kind="broken-proof-or-tie")
         return finish(res)
+    vlib.validate_fallback(res)
     model_ok = os.path.exists(vlib.DRIVER_BIN) and not any(b.startswith("build:driver") for b in res.broken)
     res.checker_cmd = "cd /verif/lean && lake build %s driver  (+ #print axioms per theorem)" % " ".join(mod.THM_MODULES)
     mod.run(res, tier, seed, not model_ok)
